@@ -124,7 +124,7 @@ Fixpoint map_opt {A B} (f : A -> option B) (l : list A) : option (list B) :=
    are (or have been reconstructed as) the TSLs src/dst; el = element size in bytes; shape = the
    run-time shape (memref.dim values, used by the 1-D case).  None = Python exception or a
    dynamic value (the dynamic cases are in Model/C05Dyn.v). *)
-Definition lower (src dst : layout) (el : Z) (shape : list Z) : option code :=
+Definition lower_body (src dst : layout) (el : Z) (shape : list Z) : option code :=
   match offset src, offset dst with
   | Some so, Some do_ =>
       let lcb := lccb src dst 1 in
@@ -147,6 +147,15 @@ Definition lower (src dst : layout) (el : Z) (shape : list Z) : option code :=
           end
       end
   | _, _ => None
+  end.
+
+(* rank-0 memrefs: every path of the pass that reaches a transfer goes through get_total_size_op
+   (the 2-D path needs a remaining stride, which a layout without dimensions does not have), whose
+   `assert total_size_op is not None` fails when there is no dimension: None. *)
+Definition lower (src dst : layout) (el : Z) (shape : list Z) : option code :=
+  match shape with
+  | [] => None
+  | _ :: _ => lower_body src dst el shape
   end.
 
 (* ------------------------------------------------------------------------------------- *)
@@ -209,7 +218,11 @@ Definition to_tsl (shape : list (option Z)) (this other : mlayout) : layout :=
 Definition lower_memref (shape : list (option Z)) (msrc mdst : mlayout) (el : Z) (rshape : list Z)
   : option code :=
   match msrc, mdst with
-  | LNone, LNone => Some (lower_simple el rshape)   (* MatchSimpleCopy runs first *)
+  | LNone, LNone =>                                 (* MatchSimpleCopy runs first *)
+      match rshape with
+      | [] => None                                  (* get_total_size_op: assert total_size_op is not None *)
+      | _ :: _ => Some (lower_simple el rshape)
+      end
   | _, _ => lower (to_tsl shape msrc mdst) (to_tsl shape mdst msrc) el rshape
   end.
 
